@@ -750,8 +750,12 @@ class Exec:
                 outs = nxt
             return outs
         if isinstance(t, ast.Attribute):
-            return self.bind(self.ev(t.value, st, fr),
-                             lambda ov, a: self.C.setattr(ov, self.mangle(t.attr, fr), v, a, fr, t))
+            def store(ov, a):
+                hk = self.hooks.get('pre_store')
+                if hk:
+                    hk(ov, self.mangle(t.attr, fr), v, a, fr, t)
+                return self.C.setattr(ov, self.mangle(t.attr, fr), v, a, fr, t)
+            return self.bind(self.ev(t.value, st, fr), store)
         if isinstance(t, ast.Subscript):
             return self.ev_many([t.value, t.slice], st, fr,
                                 lambda vs, a: self.C.setitem(vs[0], vs[1], v, a, fr, t))
